@@ -81,6 +81,20 @@ class ASeq:
                                     patterns=[z3.Select(SETOF(t), x), z3.MultiPattern(MEM(t, x), SETOF(t))])),
             ("card-range", FA([t], z3.And(0 <= CARD(t), CARD(t) <= LEN(t)), SETOF(t))),
             ("card-nodup", FA([t], (CARD(t) == LEN(t)) == NODUP(t), SETOF(t))),
+            ("card-empty", CARD(self.EMPTY) == 0),
+            ("card-snoc", FA([t, x], CARD(SNOC(t, x)) == CARD(t) + z3.If(MEM(t, x), 0, 1), SETOF(SNOC(t, x)))),
+            # derived facts about prefixes (provable from the axioms above by a case split E-matching does not find by itself)
+            ("mem-take-succ", FA([t, n, k, x], z3.Implies(z3.And(k == n + 1, 0 <= n, n < LEN(t)),
+                                                        MEM(TAKE(t, k), x) == z3.Or(MEM(TAKE(t, n), x), x == AT(t, n))),
+                                 z3.MultiPattern(MEM(TAKE(t, k), x), TAKE(t, n)))),
+            ("mem-take-0", FA([t, x], z3.Not(MEM(TAKE(t, 0), x)), MEM(TAKE(t, 0), x))),
+            ("mem-take-mem", FA([t, n, x], z3.Implies(z3.And(0 <= n, n <= LEN(t), MEM(TAKE(t, n), x)), MEM(t, x)), MEM(TAKE(t, n), x))),
+            ("nodup-take", FA([t, n], z3.Implies(z3.And(NODUP(t), 0 <= n, n < LEN(t)), z3.Not(MEM(TAKE(t, n), AT(t, n)))),
+                              z3.MultiPattern(TAKE(t, n), AT(t, n)))),
+            ("nodup-snoc", FA([t, x], NODUP(SNOC(t, x)) == z3.And(NODUP(t), z3.Not(MEM(t, x))), NODUP(SNOC(t, x)))),
+            ("nodup-empty", NODUP(self.EMPTY)),
+            ("idx-at-nodup", FA([t, k], z3.Implies(z3.And(NODUP(t), 0 <= k, k < LEN(t)), IDX(t, AT(t, k)) == k),
+                                z3.MultiPattern(NODUP(t), AT(t, k)))),
         ]
         self.axiom_names = [n_ for n_, _ in ax]
         return [f for _, f in ax]
@@ -190,6 +204,15 @@ def selfcheck(trials=300, seed=0):
                 "mem-snoc": (y in sn) == (y == x or y in t),
                 "mem-app": (y in ap) == (y in t or y in u),
                 "card-range": 0 <= len(set(t)) <= len(t),
+                "card-empty": len(set([])) == 0,
+                "card-snoc": len(set(sn)) == len(set(t)) + (0 if x in t else 1),
+                "mem-take-succ": (not 0 <= n < len(t)) or ((y in TAKE(t, n + 1)) == (y in TAKE(t, n) or y == AT(t, n))),
+                "mem-take-0": y not in TAKE(t, 0),
+                "mem-take-mem": (not (0 <= n <= len(t) and y in TAKE(t, n))) or y in t,
+                "nodup-take": (not (len(set(t)) == len(t) and 0 <= n < len(t))) or AT(t, n) not in TAKE(t, n),
+                "nodup-snoc": (len(set(sn)) == len(sn)) == (len(set(t)) == len(t) and x not in t),
+                "nodup-empty": True,
+                "idx-at-nodup": (not (len(set(t)) == len(t) and 0 <= k < len(t))) or IDX(t, AT(t, k)) == k,
                 "card-nodup": (len(set(t)) == len(t)) == all(t[a] != t[b] for a in range(len(t)) for b in range(a + 1, len(t))),
             }
             bad |= {nm for nm, ok in checks.items() if not ok}
